@@ -26,6 +26,12 @@ func init() {
 	Exec["bmtree.PathsOf"] = func(a []V) string {
 		return U64s(bmtree.PathsOf(a[0].Strs(), a[1].I32(), a[2].I32(), a[3].Bool()))
 	}
+	// [keys1, keys2, from, h, dedup] -> [paths1, paths2], both rendered after the second call
+	Exec["bmtree.PathsOf/held"] = func(a []V) string {
+		r1 := bmtree.PathsOf(a[0].Strs(), a[2].I32(), a[3].I32(), a[4].Bool())
+		r2 := bmtree.PathsOf(a[1].Strs(), a[2].I32(), a[3].I32(), a[4].Bool())
+		return L(U64s(r1), U64s(r2))
+	}
 	Register("C11", genC11)
 }
 
@@ -143,7 +149,42 @@ func c11Paths(g *Gen, keys [][]byte, from, h int, bucket string) {
 	}
 }
 
+// c11Held: two key lists of ascending sizes (the second shorter, equal and longer than the first) so that a
+// result buffer reused between calls is overwritten while the first result is still held.
+func c11Held(g *Gen) {
+	mk := func(n int, al []byte) [][]byte {
+		keys := make([][]byte, n)
+		for i := range keys {
+			keys[i] = g.R.Bytes(g.R.Range(1, 4), al)
+		}
+		sort.Slice(keys, func(i, j int) bool { return string(keys[i]) < string(keys[j]) })
+		return keys
+	}
+	for n1 := 0; n1 <= 9; n1++ {
+		for _, n2 := range []int{0, 1, n1 - 1, n1, n1 + 1, 2*n1 + 1} {
+			if n2 < 0 {
+				continue
+			}
+			for _, dd := range []bool{false, true} {
+				al := alphabets[g.R.Intn(len(alphabets))]
+				k1, k2 := mk(n1, al), mk(n2, alphabets[g.R.Intn(len(alphabets))])
+				from := g.R.Pick(0, 0, 3, 8)
+				h := g.R.Pick(8, 16, 32)
+				key := ""
+				if n1 > 0 && n2 > 0 {
+					key = fmt.Sprintf("held/dd%v/n%d/%s", dd, minInt(n1, 5), map[bool]string{true: "grow", false: "fit"}[n2 > n1])
+				}
+				g.Stat("pathsof-held")
+				g.Do("bmtree.PathsOf/held", L(ByteSlices(k1), ByteSlices(k2), Int(from), Int(h), B(dd)), key)
+			}
+		}
+	}
+}
+
 func genC11(g *Gen) {
+	// (0) held results first (hidden state: reused scratch buffers), over ascending sizes
+	c11Held(g)
+
 	// (1) exhaustive: all strings of length 0..L over {00,80,ff,01,a5} x all from in [0, min(56, 8n+9)] and 56
 	//     x all w in [0,32]; FromStr32, PathOf and PathStr(PathOf)
 	maxLen := g.N(2, 3)
